@@ -5,6 +5,7 @@ import math
 import operator
 
 import numpy as np
+import pandas as pd
 import pyarrow as pa
 from dask.dataframe import methods
 from dask.dataframe._pyarrow import to_pyarrow_string
@@ -168,7 +169,7 @@ class FusedParquetIO(FusedIO):
     ):
         from dask_expr.io.parquet import ReadParquetPyarrowFS
 
-        tables = (
+        tables = [
             ReadParquetPyarrowFS._fragment_to_table(
                 frag,
                 filter,
@@ -176,7 +177,18 @@ class FusedParquetIO(FusedIO):
                 schema,
             )
             for frag, filter in frag_filters
-        )
+        ]
+        if tables and all(table.num_columns == 0 for table in tables):
+            # Only the rows are asked for (e.g. len() of a dataset without a
+            # stored index): concat_tables forgets the rows of tables that
+            # have no columns
+            return pd.concat(
+                [
+                    ReadParquetPyarrowFS._table_to_pandas(table, *to_pandas_args)
+                    for table in tables
+                ],
+                ignore_index=True,
+            )
         table = pa.concat_tables(tables, promote_options="permissive")
         return ReadParquetPyarrowFS._table_to_pandas(table, *to_pandas_args)
 
